@@ -203,6 +203,11 @@ func (i *Iterator) Next(ctx context.Context, span telem.TimeSpan) (ok bool) {
 	for i.internal.Next() {
 		if !i.accumulate(ctx) {
 			if i.err == nil {
+				if i.internal.TimeRange().End.BeforeEq(i.view.Start) {
+					// The domain lies entirely before the view: a preceding step
+					// backwards left the domain iterator behind it. Keep walking.
+					continue
+				}
 				// The domain lies entirely after the view. Step back so that the next
 				// call resumes from the last domain that overlaps this view, which
 				// may still hold samples after view.End.
@@ -213,6 +218,12 @@ func (i *Iterator) Next(ctx context.Context, span telem.TimeSpan) (ok bool) {
 		if i.satisfied() {
 			break
 		}
+	}
+	if !i.internal.Valid() {
+		// The domain iterator ran past the last domain in the bounds and stays
+		// invalid until it is seeked again. Put it back on that domain so that a
+		// later step in the other direction can walk back from it.
+		i.internal.SeekLast(ctx)
 	}
 	return
 }
@@ -377,6 +388,11 @@ func (i *Iterator) Prev(ctx context.Context, span telem.TimeSpan) (ok bool) {
 	for i.internal.Prev() {
 		if !i.accumulate(ctx) {
 			if i.err == nil {
+				if i.internal.TimeRange().Start.AfterEq(i.view.End) {
+					// The domain lies entirely after the view: a preceding step
+					// forwards left the domain iterator ahead of it. Keep walking.
+					continue
+				}
 				// The domain lies entirely before the view. Step forward so that the
 				// next call resumes from the first domain that overlaps this view,
 				// which may still hold samples before view.Start.
@@ -387,6 +403,12 @@ func (i *Iterator) Prev(ctx context.Context, span telem.TimeSpan) (ok bool) {
 		if i.satisfied() {
 			break
 		}
+	}
+	if !i.internal.Valid() {
+		// The domain iterator ran before the first domain in the bounds and stays
+		// invalid until it is seeked again. Put it back on that domain so that a
+		// later step in the other direction can walk forward from it.
+		i.internal.SeekFirst(ctx)
 	}
 	return
 }
